@@ -411,3 +411,33 @@ def show_paths(paths):
         c = " and ".join(show(x) for x in conds) or "always"
         out.append(f"[{c}] -> {show(res)}")
     return "; ".join(out)
+
+
+def skeleton(t):
+    """shape of a term with leaves abstracted: two terms with equal skeletons differ only in
+    constants, coefficients or which variable stands where (a 'local' difference)"""
+    if not isinstance(t, tuple) or not t:
+        return "_"
+    k = t[0]
+    if not isinstance(k, str):
+        return tuple(skeleton(x) for x in t)
+    if k in ("const", "param", "bound", "name"):
+        return "_"
+    if k == "poly":
+        return ("poly", tuple(sorted(tuple(sorted(repr(skeleton(a)) for a in mono)) for mono, c in t[1])))
+    if k == "attr":
+        return ("attr", skeleton(t[1]), t[2])
+    if k == "cmp":
+        return ("cmp", skeleton(t[2]), skeleton(t[3]))
+    if k == "binop":
+        return ("binop", skeleton(t[2]), skeleton(t[3]))
+    return (k,) + tuple(skeleton(x) if isinstance(x, tuple) else "_" for x in t[1:])
+
+
+def compare_paths(got, want):
+    """-> 'equal' | 'different' (same skeleton, different content) | 'incomparable'"""
+    if got == want:
+        return "equal"
+    if len(got) == len(want) and all(skeleton(a) == skeleton(b) for a, b in zip(got, want)):
+        return "different"
+    return "incomparable"
